@@ -14,8 +14,12 @@ import (
 	"sync"
 	"sync/atomic"
 
+	chimiddleware "github.com/deepmap/oapi-codegen/pkg/chi-middleware"
+	"github.com/getkin/kin-openapi/openapi3"
+	"github.com/go-chi/chi/v5"
 	"github.com/shutter-network/rolling-shutter/rolling-shutter/keyper/database"
 	"github.com/shutter-network/rolling-shutter/rolling-shutter/keyper/kprapi"
+	"github.com/shutter-network/rolling-shutter/rolling-shutter/keyper/kproapi"
 
 	"verifharness/dbfix"
 	"verifharness/fixtures"
@@ -173,6 +177,10 @@ func genRequests(r *vlib.Rng) []request {
 	)
 	// the same natural requests with a query string: the query is not part of the operation
 	nat := append([]request{}, out[len(out)-6:]...)
+	// every value of the integer path parameter is an instance of the read-only template
+	for _, e := range []string{"0", "999999999999999999", "1000000000000000000", "9223372036854775807", fmt.Sprint(r.Uint64() >> 1)} {
+		out = append(out, request{method: "GET", path: "/v1/decryptionKey/" + e + "/0x" + strings.Repeat("2", 64), bodyKind: "none", verbatim: true, canon: "/v1/decryptionKey/any/0x2222"})
+	}
 	for _, q := range []string{"?x=1", "?", "?a=b&c=/v1/shutdown"} {
 		for _, n := range nat {
 			n.canon = n.path
@@ -359,7 +367,8 @@ func runCase(env *vlib.Env, idx int, rep *vlib.Reporter) {
 				if !write {
 					rep.Obs("readonly_reached_while_disabled", 1)
 				}
-			case q.method == "GET" && strings.HasPrefix(q.canon, "/v1/decryptionKey/3/0x2222"):
+			case q.method == "GET" && (strings.HasPrefix(q.canon, "/v1/decryptionKey/3/0x2222") || q.canon == "/v1/decryptionKey/any/0x2222"):
+				rep.Obs("unknown_key_lookups", 1)
 				if codes[0] != 404 || !strings.Contains(bodyOut, "no decryption key found") {
 					rep.Violationf("readonly-unreachable:decryptionKey", map[string]any{"request": desc, "status": codes[0], "body": bodyOut}, "GET decryptionKey for an unknown key does not reach its handler (status %d)", codes[0])
 					return
@@ -403,6 +412,56 @@ func runCase(env *vlib.Env, idx int, rep *vlib.Reporter) {
 	rep.Obs("concurrent_requests", int64(len(reqs)))
 	if !write && (triggers.Load() != t0 || shutdowns.Load() != s0) {
 		rep.Violationf("write-operation-reached", map[string]any{"request": "concurrent pass"}, "with write operations disabled a state-changing operation was reached during the concurrent pass")
+	}
+	// fault pass: the gate's specification provider fails (always, or for some of the calls); the
+	// gate is assembled as setupAPIRouter does, in front of the real handlers. Whatever the answer
+	// is, a disabled write operation must not be reached.
+	if !write {
+		swagger, err := kproapi.GetSwagger()
+		if err != nil {
+			rep.Inconclusive("spec: " + err.Error())
+			return
+		}
+		swagger.Servers = nil
+		mode := idx / 2 % 3
+		var calls atomic.Int64
+		faulty := func() (*openapi3.T, error) {
+			n := calls.Add(1)
+			if mode == 0 || (mode == 1 && n%2 == 0) || (mode == 2 && n%3 != 0) {
+				return nil, fmt.Errorf("specification unavailable")
+			}
+			return kproapi.GetSwagger()
+		}
+		api := chi.NewRouter()
+		api.Use(chimiddleware.OapiRequestValidator(swagger))
+		api.Use(kproapi.ConfigMiddlewareWithSpec(false, faulty))
+		_ = kproapi.HandlerFromMux(srv, api)
+		outer := chi.NewRouter()
+		outer.Mount("/v1", http.StripPrefix("/v1", api))
+		t0, s0 := triggers.Load(), shutdowns.Load()
+		for _, q := range reqs {
+			if !strings.HasPrefix(q.path, "/v1/") {
+				continue
+			}
+			func() {
+				defer func() { _ = recover() }()
+				var body io.Reader
+				if q.body != "" {
+					body = strings.NewReader(q.body)
+				}
+				req := httptest.NewRequest(q.method, "http://keyper.test"+q.path, body)
+				if q.body != "" {
+					req.Header.Set("Content-Type", "application/json")
+				}
+				outer.ServeHTTP(httptest.NewRecorder(), req)
+				rep.Obs("requests_with_failing_spec_provider", 1)
+			}()
+		}
+		barrier()
+		if triggers.Load() != t0 || shutdowns.Load() != s0 {
+			rep.Violationf("write-operation-reached:spec-fault", map[string]any{"provider_mode": mode, "triggers": triggers.Load() - t0, "shutdowns": shutdowns.Load() - s0},
+				"with write operations disabled and a failing specification provider (mode %d) a state-changing operation was reached", mode)
+		}
 	}
 	if u := node.CheckUnsupported(); u != "" {
 		rep.Inconclusive(u)
